@@ -7,7 +7,7 @@ import json, os, subprocess, sys, tempfile, shutil
 VERIF = os.path.dirname(os.path.dirname(os.path.abspath(__file__)))
 args = [a for a in sys.argv[1:] if not a.startswith('--')]
 tier = 'thorough' if '--tier' in sys.argv and sys.argv[sys.argv.index('--tier') + 1] == 'thorough' else 'quick'
-CORPORA = ['refactorings', 'refactorings2', 'refactorings3', 'refactorings4', 'refactorings5']
+CORPORA = ['refactorings', 'refactorings2', 'refactorings3', 'refactorings4', 'refactorings5', 'refactorings6']
 wt = tempfile.mkdtemp(prefix='refac-')
 os.rmdir(wt)
 subprocess.check_call(['git', '-C', '/repo', 'worktree', 'add', '--detach', '-q', wt, 'HEAD'])
